@@ -130,6 +130,24 @@ def doTopQ (n kind vals : String) : String :=
         joinOr "-" "," ((topElements rev h).map toString)
   | _, _ => "bad-op"
 
+def parseMRow (s : String) : Option MRow :=
+  match s.splitOn ":" with
+  | [sid, ts, ver, val] =>
+    match sid.toNat?, ts.toInt?, ver.toInt?, val.toInt? with
+    | some a, some b, some c, some d => some { sid := a, ts := b, ver := c, val := d }
+    | _, _, _, _ => none
+  | _ => none
+
+def showGroups (r : List (List MRow)) : String :=
+  if r.isEmpty then "-" else "/".intercalate (r.map fun g =>
+    s!"{(g.head?.map (·.sid)).getD 0}=" ++ ",".intercalate (g.map fun e => s!"{e.ts}:{e.ver}:{e.val}"))
+
+def doMQR (ord dir lo hi sids spec : String) : String :=
+  match lo.toInt?, hi.toInt?, (sids.splitOn "+").mapM (·.toNat?),
+        (spec.splitOn "|").mapM (fun p => (p.splitOn ",").mapM parseMRow) with
+  | some a, some b, some ss, some parts => showGroups (measureQuery parts ss a b (ord == "ts") (dir != "desc"))
+  | _, _, _, _ => "bad-op"
+
 def handle (line : String) : String :=
   match words line with
   | ["sort", dir, spec] => doSort dir spec
@@ -139,6 +157,7 @@ def handle (line : String) : String :=
   | ["mmerge", dir, off, lim, spec] => doMMerge dir off lim spec
   | ["smerge", dir, spec] => doSMerge dir spec
   | ["topq", n, kind, vals] => doTopQ n kind vals
+  | ["mqr", ord, dir, lo, hi, sids, spec] => doMQR ord dir lo hi sids spec
   | _ => "bad-op"
 
 def main : IO Unit := runDriver handle
